@@ -184,7 +184,8 @@ def validate_gauge_adapters(raw_config):
         if isinstance(adapter, dict) and len(adapter) != 1:
             raise UIError("When specifying a custom gauge adapter," +
                           " exactly one must to be specified." +
-                          " Currently there are %d. (%s)\n" % (len(adapter), adapter), None)
+                          " Currently there are %d. (%s)\n"
+                          % (len(adapter), escape_braces(str(adapter))), None)
     return True
 
 
